@@ -603,6 +603,7 @@ func (r *Resolver) groupLookup(ctx context.Context, rs *resolveState, req *dns.M
 		// returns its own error while the remaining healthy followers regroup
 		// again; each caller's context bounds the sequence.
 		result, shared, leader, lookupErr := r.sfGroup.TimedDoChanWithRole(ctx, key, func() (any, error) {
+			verifFlightGate(key)
 			// Hard ceiling on in-flight zone lookups, held only for this
 			// wire-level lookup — never across recursion levels, so a
 			// nested sub-lookup can't deadlock on its parent's slot. When
